@@ -274,7 +274,48 @@ fn canary_fingerprint() -> String {
     digest_strs(&order)[..16].to_string()
 }
 
-fn run_program(p: &Program) -> (String, Vec<String>, Vec<String>, String) {
+/// The same input through `transpile_dir`: a private project directory per job (below the
+/// executor's private directory), sources written and outputs read back by the harness
+/// outside the simulation; what `transpile_dir` itself does goes through the overrides and the
+/// interleaving scheduler like everything else.
+fn run_program_dir(p: &Program, tag: &str) -> (String, Vec<String>, Vec<String>, String) {
+    let base = std::env::var("MSIM_PRIVATE").unwrap_or_else(|_| std::env::temp_dir().to_string_lossy().into_owned());
+    let dir = format!("{base}/jobs/{tag}");
+    simlibc::set_bypass(true);
+    let _ = std::fs::remove_dir_all(&dir);
+    for f in &p.files {
+        let fp = PathBuf::from(&dir).join("src").join(&f.path);
+        if let Some(parent) = fp.parent() {
+            let _ = std::fs::create_dir_all(parent);
+        }
+        let _ = std::fs::write(&fp, f.text.as_bytes());
+    }
+    simlibc::set_bypass(false);
+    let args = mamba::Arguments { annotate: p.annotate };
+    PANIC_MSG.with(|m| m.borrow_mut().clear());
+    let r = catch_unwind(AssertUnwindSafe(|| mamba::transpile_dir(std::path::Path::new(&dir), None, None, &args)));
+    simlibc::set_bypass(true);
+    let res = match r {
+        Ok(Ok(_)) => {
+            let outs = p
+                .files
+                .iter()
+                .map(|f| std::fs::read_to_string(PathBuf::from(&dir).join("target").join(&f.path).with_extension("py")).unwrap_or_else(|e| format!("<output missing: {e}>")))
+                .collect();
+            ("ok".to_string(), outs, vec![], String::new())
+        }
+        Ok(Err(diags)) => ("err".to_string(), vec![], diags.iter().map(|d| d.replace(&dir, "$JOB")).collect(), String::new()),
+        Err(_) => ("panic".to_string(), vec![], vec![], PANIC_MSG.with(|m| m.borrow().clone())),
+    };
+    let _ = std::fs::remove_dir_all(&dir);
+    simlibc::set_bypass(false);
+    res
+}
+
+fn run_program(p: &Program, tag: &str) -> (String, Vec<String>, Vec<String>, String) {
+    if p.path_mode == "dir" {
+        return run_program_dir(p, tag);
+    }
     let src_dir = PathBuf::from("/proj/src");
     let sources: Vec<(String, Option<PathBuf>)> = p
         .files
@@ -320,7 +361,7 @@ fn sim_thread(t: usize, s: Arc<Sched>, keep_log: bool) {
         };
         // ---- in context from here (CURRENT was set by whoever made us runnable)
         let canary = canary_fingerprint();
-        let (verdict, outputs, diags, panic_msg) = run_program(&program);
+        let (verdict, outputs, diags, panic_msg) = run_program(&program, &format!("r{round}t{t}"));
         // ---- hand over
         let mut st = s.m.lock().unwrap();
         let ctxp = st.ctxs[t] as *mut Ctx;
@@ -460,7 +501,7 @@ pub fn exec_jobs(sc: &C12Scenario, keep_log: bool) -> JobsResult {
         for job in &round.jobs {
             let t = job.thread;
             assert!(st.ctxs[t] == 0, "two jobs of one round on the same thread");
-            let mut ctx = Box::new(Ctx::new("", &stub, st.entropy[t], sc.threads[t].readdir_seed));
+            let mut ctx = Box::new(Ctx::new(&std::env::var("MSIM_PRIVATE").unwrap_or_default(), &stub, st.entropy[t], sc.threads[t].readdir_seed));
             ctx.plan = job.perturb.clone();
             ctx.clock_value = sc.clock;
             ctx.clock_step_ns = sc.clock_step_ns;
